@@ -229,6 +229,8 @@ struct RunCfg {
     threads: u32,
     gate_seed: Option<u64>,
     real_rustfmt: bool,
+    /// tier 3: several workers, no gate - real rayon scheduling decides how jobs overlap
+    uncontrolled: bool,
 }
 
 struct RunOut {
@@ -371,6 +373,73 @@ fn diff_trees(a: &BTreeMap<String, Vec<u8>>, b: &BTreeMap<String, Vec<u8>>) -> O
     None
 }
 
+/// Is a formatted run of this (corpus, mode) cheap? Split modes of the large corpora spend
+/// about a minute in rustfmt (one process per file).
+fn fmt_cheap(c: &Corpus, mode: &str) -> bool {
+    !(mode.contains("split") && (c.name.contains("family") || c.name == "repo_thrift_all"))
+}
+
+/// Compare two trees, running the real rustfmt on the files that differ textually.
+fn diff_trees_formatted(a: &BTreeMap<String, Vec<u8>>, b: &BTreeMap<String, Vec<u8>>, tmp: &Path) -> Option<String> {
+    let ka: BTreeSet<_> = a.keys().collect();
+    let kb: BTreeSet<_> = b.keys().collect();
+    if ka != kb {
+        return diff_trees(a, b);
+    }
+    let _ = std::fs::create_dir_all(tmp);
+    let fmt = |name: &str, bytes: &Vec<u8>| -> Option<Vec<u8>> {
+        let p = tmp.join(name);
+        std::fs::write(&p, bytes).ok()?;
+        let st = Command::new("rustfmt").arg("--edition").arg("2021").arg(&p).stdout(Stdio::null()).stderr(Stdio::null()).status().ok()?;
+        if !st.success() {
+            return None;
+        }
+        std::fs::read(&p).ok()
+    };
+    let mut res = None;
+    for (k, va) in a {
+        let vb = &b[k];
+        if va == vb {
+            continue;
+        }
+        if !k.ends_with(".rs") {
+            res = diff_trees(a, b);
+            break;
+        }
+        match (fmt("a.rs", va), fmt("b.rs", vb)) {
+            (Some(fa), Some(fb)) => {
+                if fa != fb {
+                    let mut m1 = BTreeMap::new();
+                    m1.insert(k.clone(), fa);
+                    let mut m2 = BTreeMap::new();
+                    m2.insert(k.clone(), fb);
+                    res = diff_trees(&m1, &m2);
+                    break;
+                }
+            }
+            _ => {
+                // not formattable on its own (a fragment): equal as multisets of non-blank lines => a pure reordering
+                // or re-spacing that rustfmt might absorb; anything else is a real difference
+                let lines = |v: &Vec<u8>| {
+                    let mut l: Vec<String> = String::from_utf8_lossy(v).lines().map(|x| x.split_whitespace().collect::<Vec<_>>().join(" ")).filter(|x| !x.is_empty()).collect();
+                    l.sort();
+                    l
+                };
+                if lines(va) != lines(vb) {
+                    let mut m1 = BTreeMap::new();
+                    m1.insert(k.clone(), va.clone());
+                    let mut m2 = BTreeMap::new();
+                    m2.insert(k.clone(), vb.clone());
+                    res = diff_trees(&m1, &m2);
+                    break;
+                }
+            }
+        }
+    }
+    let _ = std::fs::remove_dir_all(tmp);
+    res
+}
+
 fn tree_digest(t: &BTreeMap<String, Vec<u8>>) -> u64 {
     let mut h = 0xcbf2_9ce4_8422_2325u64;
     for (k, v) in t {
@@ -384,7 +453,7 @@ fn tree_digest(t: &BTreeMap<String, Vec<u8>>) -> u64 {
 }
 
 fn cfg_json(c: &Corpus, cfg: &RunCfg) -> Value {
-    json!({"corpus": c.name, "mode": cfg.mode, "hash_seed": cfg.hash_seed, "threads": cfg.threads, "gate_seed": cfg.gate_seed, "real_rustfmt": cfg.real_rustfmt})
+    json!({"corpus": c.name, "mode": cfg.mode, "hash_seed": cfg.hash_seed, "threads": cfg.threads, "gate_seed": cfg.gate_seed, "real_rustfmt": cfg.real_rustfmt, "uncontrolled": cfg.uncontrolled})
 }
 
 fn run(args: &[String]) {
@@ -410,7 +479,11 @@ fn run(args: &[String]) {
     for (ci, c) in cs.iter().enumerate() {
         for m in &c.modes {
             for fmt in [false, true] {
-                jobs.push(RunCfg { corpus: ci, mode: m, hash_seed: 0, threads: 1, gate_seed: None, real_rustfmt: fmt });
+                // formatting a big split tree takes a minute: its formatted canonical run is made only if a confirmation needs it
+                if fmt && !fmt_cheap(c, m) {
+                    continue;
+                }
+                jobs.push(RunCfg { corpus: ci, mode: m, hash_seed: 0, threads: 1, gate_seed: None, real_rustfmt: fmt, uncontrolled: false });
             }
         }
     }
@@ -423,8 +496,11 @@ fn run(args: &[String]) {
         canon.insert((cfg.corpus, cfg.mode, cfg.real_rustfmt), read_tree(&out.dir));
     }
 
+    if std::env::var("GEN_SIM_VERBOSE").is_ok() {
+        eprintln!("phase canonical done at {:.1}s", t0.elapsed().as_secs_f64());
+    }
     // 2. exploration
-    let per_pair = if thorough { 120 } else { 10 };
+    let per_pair = if thorough { 400 } else { 36 };
     let mut st = seed ^ 0xC17;
     let mut jobs: Vec<RunCfg> = vec![];
     for (ci, c) in cs.iter().enumerate() {
@@ -441,17 +517,38 @@ fn run(args: &[String]) {
                 };
                 // a few runs through the real rustfmt, the bulk unformatted (stricter)
                 let fmt = k % 7 == 6;
-                jobs.push(RunCfg { corpus: ci, mode: m, hash_seed, threads, gate_seed: gate, real_rustfmt: fmt });
+                jobs.push(RunCfg { corpus: ci, mode: m, hash_seed, threads, gate_seed: gate, real_rustfmt: fmt && fmt_cheap(c, m), uncontrolled: false });
                 // worker counts 1..16 with the gate off are covered by tier 1 only at 1 worker; with the
                 // gate the pool size is irrelevant to the order, vary it as well
                 if tierkind == 3 {
                     let t = 64 + (splitmix(&mut st) % 64) as u32;
-                    jobs.push(RunCfg { corpus: ci, mode: m, hash_seed, threads: t, gate_seed: Some(splitmix(&mut st)), real_rustfmt: false });
+                    jobs.push(RunCfg { corpus: ci, mode: m, hash_seed, threads: t, gate_seed: Some(splitmix(&mut st)), real_rustfmt: false, uncontrolled: false });
                 }
             }
         }
     }
+    // tier 3: uncontrolled overlap. Real rayon scheduling with 2..16 workers and no gate, hash seed
+    // pinned to the canonical one, so that only the way jobs overlap in time varies. A difference
+    // from the canonical tree is a violation (the output must not depend on the schedule at all),
+    // but such a run cannot be replayed exactly: replay re-runs the configuration several times.
+    let per_pair_t3 = if thorough { 40 } else { 8 };
+    for (ci, c) in cs.iter().enumerate() {
+        for m in &c.modes {
+            for k in 0..per_pair_t3 {
+                let threads = [16u32, 4, 2, 8][k % 4];
+                jobs.push(RunCfg { corpus: ci, mode: m, hash_seed: 0, threads, gate_seed: None, real_rustfmt: false, uncontrolled: true });
+            }
+        }
+    }
     let results = run_parallel(&cs, &jobs, &scratch, &shim, "x");
+    if std::env::var("GEN_SIM_VERBOSE").is_ok() {
+        eprintln!("phase exploration runs done at {:.1}s", t0.elapsed().as_secs_f64());
+        let mut w: Vec<(f64, String)> = jobs.iter().zip(results.iter()).map(|(c, o)| (o.wall, format!("{} {} fmt={} gate={}", cs[c.corpus].name, c.mode, c.real_rustfmt, c.gate_seed.is_some()))).collect();
+        w.sort_by(|a, b| b.0.partial_cmp(&a.0).unwrap());
+        for x in w.iter().take(6) {
+            eprintln!("  slow run {:.1}s {}", x.0, x.1);
+        }
+    }
     let mut violations: Vec<Value> = vec![];
     let mut orders: BTreeSet<String> = BTreeSet::new();
     let mut hash_seeds: BTreeSet<u64> = BTreeSet::new();
@@ -465,7 +562,7 @@ fn run(args: &[String]) {
         let c = &cs[cfg.corpus];
         *counters.entry(format!("mode.{}", cfg.mode)).or_insert(0) += 1;
         *counters.entry(format!("corpus.{}", c.name)).or_insert(0) += 1;
-        *counters.entry(if cfg.gate_seed.is_some() { "tier2_gate_runs".to_string() } else { "tier1_single_worker_runs".to_string() }).or_insert(0) += 1;
+        *counters.entry(if cfg.uncontrolled { "tier3_uncontrolled_overlap_runs".to_string() } else if cfg.gate_seed.is_some() { "tier2_gate_runs".to_string() } else { "tier1_single_worker_runs".to_string() }).or_insert(0) += 1;
         if cfg.real_rustfmt {
             *counters.entry("real_rustfmt_runs".into()).or_insert(0) += 1;
         }
@@ -478,6 +575,7 @@ fn run(args: &[String]) {
             std::process::exit(2);
         }
         shim_calls += out.shim_calls;
+        *counters.entry(format!("wall_ms.{}.{}", cfg.mode, if cfg.real_rustfmt { "fmt" } else { "raw" })).or_insert(0) += (out.wall * 1000.0) as u64;
         hash_seeds.insert(cfg.hash_seed);
         if !out.gate_log.is_empty() {
             orders.insert(format!("{}|{}|{}", c.name, cfg.mode, out.gate_log));
@@ -494,6 +592,13 @@ fn run(args: &[String]) {
             *counters.entry("raw_mismatches".into()).or_insert(0) += 1;
             if cfg.real_rustfmt {
                 violations.push(json!({"run": cfg_json(c, cfg), "detail": d, "entries": c.entries.iter().map(|p| p.to_string_lossy().to_string()).collect::<Vec<_>>()}));
+            } else if cfg.uncontrolled {
+                // cannot be re-run exactly: decide on the two trees at hand, formatting the differing files
+                if let Some(d2) = diff_trees_formatted(reference, &tree, &scratch.join(format!("fmtcmp{}", i))) {
+                    violations.push(json!({"run": cfg_json(c, cfg), "detail": format!("{} [uncontrolled overlap run: not exactly replayable]", d2), "entries": c.entries.iter().map(|p| p.to_string_lossy().to_string()).collect::<Vec<_>>()}));
+                } else {
+                    *counters.entry("raw_difference_normalised_away_by_rustfmt".into()).or_insert(0) += 1;
+                }
             } else {
                 // unformatted text is stricter than the property: confirm with the real rustfmt
                 // (at most three candidates per (corpus, mode); violations are reported per pair)
@@ -511,6 +616,23 @@ fn run(args: &[String]) {
     }
     // confirmation runs, in parallel
     if !to_confirm.is_empty() {
+        // formatted canonical runs that were skipped at the start
+        let mut need: Vec<RunCfg> = vec![];
+        for cfg in &to_confirm {
+            if !canon.contains_key(&(cfg.corpus, cfg.mode, true)) && !need.iter().any(|n| n.corpus == cfg.corpus && n.mode == cfg.mode) {
+                need.push(RunCfg { corpus: cfg.corpus, mode: cfg.mode, hash_seed: 0, threads: 1, gate_seed: None, real_rustfmt: true, uncontrolled: false });
+            }
+        }
+        if !need.is_empty() {
+            let res = run_parallel(&cs, &need, &scratch, &shim, "canonfmt");
+            for (cfg, out) in need.iter().zip(res.iter()) {
+                if !out.ok {
+                    eprintln!("harness error: canonical run failed: {} {}\n{}", cs[cfg.corpus].name, cfg.mode, out.stderr);
+                    std::process::exit(2);
+                }
+                canon.insert((cfg.corpus, cfg.mode, true), read_tree(&out.dir));
+            }
+        }
         let res = run_parallel(&cs, &to_confirm, &scratch, &shim, "confirm");
         for (cfg, out) in to_confirm.iter().zip(res.iter()) {
             let c = &cs[cfg.corpus];
@@ -564,7 +686,7 @@ fn run(args: &[String]) {
             "distinct_gate_release_orders": orders.len(),
             "distinct_hash_seeds": hash_seeds.len(),
             "distinct_output_trees": digests.len(),
-            "corpus_mode_pairs": canon.len() / 2,
+            "corpus_mode_pairs": canon.keys().filter(|k| !k.2).count(),
             "getrandom_calls_served_by_shim": shim_calls,
             "counters": counters,
             "known_findings_matched": kl,
@@ -572,7 +694,7 @@ fn run(args: &[String]) {
                 "real": ["pilota-build (parser, resolver, salsa db, codegen, workspace writer) as a whole process", "rayon pool, dashmap, std/ahash hash maps", "rustfmt and cargo init (in the real-rustfmt runs)"],
                 "simulated": ["OS entropy (LD_PRELOAD getrandom/getentropy/syscall shim)", "ASLR (switched off with setarch -R)", "job release order (gate compiled in with --cfg pilota_verif)", "worker count (RAYON_NUM_THREADS)", "cargo init in the bulk unformatted runs (stub writing the same crate skeleton)"],
             },
-            "explanation": "jobs are atomic in this model: two jobs overlapping inside write_item are not explored (that needs scheduling points inside dashmap/salsa). Uncontrolled multi-worker runs without the gate are not used for verdicts because they could not be replayed.",
+            "explanation": "tiers 1 and 2 are exactly replayable and treat jobs as atomic (no interleaving inside write_item / dashmap / salsa). Tier 3 lets real rayon scheduling overlap the jobs (2..16 workers, no gate, canonical hash seed): any difference from the canonical tree is a genuine violation, but its replay can only re-run the configuration several times.",
         },
         "assumptions": ["the gate serialises jobs: per-job code runs alone", "unformatted output (RUSTFMT=/bin/true) is compared in the bulk of the runs; a raw difference only counts after it reproduces with the real rustfmt"],
     });
@@ -586,6 +708,8 @@ fn run(args: &[String]) {
     }
     let _ = std::fs::create_dir_all(format!("{}/replays", verif_dir));
     let mut seen = BTreeSet::new();
+    // exactly replayable violations first
+    unknown.sort_by_key(|v| v["run"]["uncontrolled"].as_bool().unwrap_or(false));
     for v in unknown.iter() {
         let key = format!("{}|{}", v["run"]["corpus"], v["run"]["mode"]);
         if !seen.insert(key) || seen.len() > 2 {
@@ -662,7 +786,7 @@ fn static_mode(m: &str) -> &'static str {
 
 /// Run (canonical, candidate) for a configuration with explicit entries; Some(detail) if they differ.
 fn differs(c: &Corpus, cfg: &RunCfg, scratch: &Path, shim: &Path, n: usize) -> Option<String> {
-    let canon_cfg = RunCfg { corpus: cfg.corpus, mode: cfg.mode, hash_seed: 0, threads: 1, gate_seed: None, real_rustfmt: cfg.real_rustfmt };
+    let canon_cfg = RunCfg { corpus: cfg.corpus, mode: cfg.mode, hash_seed: 0, threads: 1, gate_seed: None, real_rustfmt: cfg.real_rustfmt, uncontrolled: false };
     let a = exec_run(c, &canon_cfg, &scratch.join(format!("m{}a", n)), shim);
     let b = exec_run(c, cfg, &scratch.join(format!("m{}b", n)), shim);
     if !a.ok || !b.ok {
@@ -675,6 +799,15 @@ fn differs(c: &Corpus, cfg: &RunCfg, scratch: &Path, shim: &Path, n: usize) -> O
 }
 
 fn minimise_c17(v: &Value, cs: &[Corpus], verif_dir: &str, shim: &Path) -> Value {
+    if v["run"]["uncontrolled"].as_bool().unwrap_or(false) {
+        // an uncontrolled overlap run cannot be re-run exactly, so it is reported as found
+        let mut j = v.clone();
+        if let Some((_, c)) = find_corpus(cs, v["run"]["corpus"].as_str().unwrap_or("")) {
+            j["source"] = json!(c.source);
+            j["include"] = json!(c.include.as_ref().map(|p| p.to_string_lossy().to_string()));
+        }
+        return j;
+    }
     let scratch = PathBuf::from(format!("{}/target/gen-scratch/min{}", verif_dir, std::process::id()));
     let _ = std::fs::create_dir_all(&scratch);
     let run = &v["run"];
@@ -687,6 +820,7 @@ fn minimise_c17(v: &Value, cs: &[Corpus], verif_dir: &str, shim: &Path) -> Value
         threads: run["threads"].as_u64().unwrap_or(1) as u32,
         gate_seed: run["gate_seed"].as_u64(),
         real_rustfmt: true,
+        uncontrolled: run["uncontrolled"].as_bool().unwrap_or(false),
     };
     let mut n = 0;
     let mut detail = v["detail"].as_str().unwrap_or("").to_string();
@@ -764,8 +898,21 @@ fn replay(args: &[String]) -> i32 {
         threads: run["threads"].as_u64().unwrap_or(1) as u32,
         gate_seed: run["gate_seed"].as_u64(),
         real_rustfmt: true,
+        uncontrolled: run["uncontrolled"].as_bool().unwrap_or(false),
     };
-    let d = differs(&c, &cfg, &scratch, &shim, 0);
+    let mut d = None;
+    let attempts = if cfg.uncontrolled { 12 } else { 1 };
+    for k in 0..attempts {
+        let mut c2 = cfg.clone();
+        if cfg.uncontrolled {
+            // the schedule is the operating system's: try a few times, unformatted like the original run
+            c2.real_rustfmt = false;
+        }
+        d = differs(&c, &c2, &scratch, &shim, k);
+        if d.is_some() {
+            break;
+        }
+    }
     let _ = std::fs::remove_dir_all(&scratch);
     match d {
         Some(d) => {
